@@ -259,7 +259,10 @@ class NestedNodeKernel(Kernel):
         for nm in ("start_child_on_start", "stop_child_on_stop", "propagate_child_schedule"):
             ctx.store[(opts.oid, nm)] = z3.Bool("opt_" + nm)
         spec = Obj("spec", "spec")
-        ctx.store[(spec.oid, "input_bindings")] = Obj("bindings", "input_bindings")
+        ib = Obj("bindings", "input_bindings")          # observers of the wiring-time binding list answer arbitrarily
+        ib.m_empty = lambda I_2, a, n: z3.Bool("no_input_bindings")
+        ib.m_size = lambda I_2, a, n: z3.Int("n_input_bindings")
+        ctx.store[(spec.oid, "input_bindings")] = ib
         ob = Obj("NestedGraphOutputBinding", "output_binding")
         ctx.store[(ob.oid, "target_path")] = z3.Int("output_target_path")
         ctx.store[(ob.oid, "kind")] = z3.Int("output_binding_kind")
@@ -396,6 +399,13 @@ class NestedNodeKernel(Kernel):
 
     def c_next_scheduled_time(self, I, o, a, n):
         return self.gg(I.ctx, "child_nst")
+
+    # const observers of the child the contracts do not track: arbitrary answers (within their type), no effects
+    def c_evaluation_time(self, I, o, a, n):
+        return z3.Int("child_evaluation_time")
+
+    def c_started(self, I, o, a, n):
+        return z3.Bool("child_started")
 
     def c_failed_node(self, I, o, a, n):
         fv = NodeViewP(name="failed_node")
